@@ -62,6 +62,7 @@ def _run(tr):
     # path validation only: the server has processed a PATH_RESPONSE in a datagram that arrived from that address
     # (RFC 9000 §8.2, §9.3). `rxp` records are the packets the server decrypted and processed (packet interceptor).
     path_resp_at = set()
+    have_frames = any(r.kind == "rxp" and r.ep == "s" and r.frames for r in tr.recs)
     for r in tr.recs:
         if r.kind == "rxp" and r.ep == "s" and any(f["type"] == "PATH_RESPONSE" for f in r.frames):
             path_resp_at.add(r.t)
@@ -85,7 +86,14 @@ def _run(tr):
                 if "handshake" in kinds or "short" in kinds[:1] or (not complete and "garbage" not in kinds[:1]):
                     s["validated"] = True
             elif peer not in (ATTACKER, SPOOFER):
-                if w.at in path_resp_at and w.action not in FORGED:
+                longhdr = bool(kinds) and kinds[0] in ("initial", "handshake", "0rtt")
+                if ("handshake" in kinds or (longhdr and not complete)) and w.action not in FORGED:
+                    # a (new) connection's handshake runs from this address (a long-header datagram that the record does
+                    # not show completely may coalesce a Handshake packet: lenient, as for the first address)
+                    s["validated"] = True
+                elif not have_frames:
+                    s["validated"] = True      # the trace carries no cleartext payloads: path validation is not observable
+                elif w.at in path_resp_at and w.action not in FORGED:
                     s["validated"] = True
         else:
             n = w.orig
